@@ -133,8 +133,13 @@ def build():
     # ---- step contracts of _advance_parsing (complete: the loop runs a statically known 1-2 iterations)
     STEP = {1: ("array-nesting-limit", {"C02": "*", "C01": "*"}), 2: ("object-nesting-limit", {"C02": "*", "C01": "*", "C06": "*"}),
             3: ("next-scalar", {"C03": "*"}), 4: ("lookup-overshoot-rewind", {"C07": "*", "C08": "*", "C16": "*"})}
+    STEP[5] = ("name-order", {"C02": "*", "C07": "*", "C08": "*"})
+    STEP[6] = ("malformed-token-any-scan", {"C08": "*", "C02": "*"})
+    STEP_DEFS = {4: ["VC_STEP_MAXBUF=300"]}
+    # (the same step with max_depth 255 / symbolic and a state array of exactly that size does not fit in memory: the
+    #  limit of the 8-bit depth counter at max_depth = 255 is NOT covered; max_depth in {1,2,3} is)
     for sc, (nm, pr) in STEP.items():
-        J.append(Job("E2/step/" + nm, "E3", "contracts/h_step.c", "h_step", pr, defs=["VC_SCEN=%d" % sc],
+        J.append(Job("E2/step/" + nm, "E3", "contracts/h_step.c", "h_step", pr, defs=["VC_SCEN=%d" % sc] + STEP_DEFS.get(sc, []),
                      cbmc_args=["--unwind", "9", "--unwindset", "_advance_parsing.0:3", "--unwinding-assertions", "--slice-formula"], timeout=1800, mem_gb=8,
                      note="real _advance_parsing from a symbolic pre-state of one shape; the token loop provably runs <= 2 iterations (unwinding assertion), so this is COMPLETE for that shape; tokens within the first 64 bytes behind the cursor"))
 
